@@ -46,7 +46,8 @@ def cases(tier, seed, info):
     n = 3 if tier == 'quick' else 250
     for rep in range(n):
         for kind in ('UD', 'ED'):
-            for beh in BEHS + ['prog0', 'prog1', 'prog2', 'prog3', 'prog4', 'prog5', 'builtin', 'shipped_e500', 'shipped_2c00']:
+            for beh in BEHS + ['prog0', 'prog1', 'prog2', 'prog3', 'prog4', 'prog5', 'builtin', 'shipped_e500', 'shipped_2c00'] \
+                    + (['absent_df', 'absent_b5', 'absent_ff'] if kind == 'ED' else []):
                 for plugins in (True, False):
                     items.append(dict(t='ud', kind=kind, beh=beh, plugins=plugins, k=rep))
         for creator in ('X', 'Y', 'O', 'B', 'Q', 'Z'):
@@ -91,8 +92,13 @@ def _ud(rng, it):
         real_beh = 'ok' if beh.startswith('ok') else beh
         if beh == 'ok_bmccomp':
             creator = 'Y'       # the component id under which the BMC's built-in formats live, from another creator
-    elif beh == 'absent':
+    elif beh.startswith('absent'):
         comp, fixture = [0x7A, 0x7A], False
+        if beh != 'absent':
+            # the creator of an extended user data section is a byte of the section itself: any of the 256 values
+            # (the module asked for is named after the character's lower-case form - these have none other)
+            creator = chr(int(beh[-2:], 16))
+            real_beh = beh = 'absent'
     elif beh.startswith('prog'):
         comp = [0x66, 0x66]
         sel = int(beh[4])
